@@ -28,6 +28,7 @@ import (
 	"bytes"
 	"errors"
 	"fmt"
+	"os"
 	"runtime"
 	"sort"
 	"strings"
@@ -36,6 +37,7 @@ import (
 	"github.com/aergoio/aergo/v2/syncer"
 	"github.com/aergoio/aergo/v2/types"
 	"github.com/aergoio/aergo/v2/types/message"
+	"github.com/aergoio/aergo/v2/verif_h/vtime"
 	"github.com/aergoio/aergo/v2/verif_h/xplor"
 )
 
@@ -49,7 +51,7 @@ type scriptC struct {
 	Tasks  int    `json:"tasks"`
 	Order  int    `json:"order"`  // 0: smallest pending message first, 1: largest first
 	StopAt int    `json:"stopat"` // external stop after this many handled messages of session 1 (-1: never)
-	Fault  string `json:"fault"`  // chunk-<kind>@<startNo> | add-err@<no> | hold-add@<no> | anc-nil | hashbyno-err
+	Fault  string `json:"fault"`  // chunk-<kind>@<startNo> | add-err@<no> | hold-add@<no> | anc-nil | hashbyno-err | hashes-<short|silent|err>@<prevNo>
 	Extend int    `json:"extend"` // blocks added to the remote chain before the second session
 }
 
@@ -85,6 +87,8 @@ type e2e struct {
 	held      *message.AddBlock // an AddBlock of an ended session the chain service has not answered yet
 	sig, why  string
 }
+
+var traceC = os.Getenv("VERIF_C17_TRACE") != ""
 
 var errExternalStop = errors.New("verif: external stop request")
 
@@ -235,11 +239,26 @@ func (e *e2e) handle(o outMsg) {
 			rcv(&message.GetHashByNoRsp{Seq: m.Seq, BlockHash: h})
 		}
 	case *message.GetHashes:
+		if traceC {
+			fmt.Fprintf(os.Stderr, "C: GetHashes prev=%d count=%d\n", m.PrevInfo.No, m.Count)
+		}
 		var hs []message.BlockHash
 		for i := uint64(1); i <= m.Count; i++ {
 			if h := e.remote.hashAt(m.PrevInfo.No + i); h != nil {
 				hs = append(hs, h)
 			}
+		}
+		switch at := m.PrevInfo.No; {
+		case e.fault("hashes-silent", at):
+			// the peer never answers this request: only the hash fetcher's own timer can end the session
+			return
+		case e.fault("hashes-short", at) && len(hs) > 1:
+			// one hash too few, no error indication; the peer then stays silent
+			rcv(&message.GetHashesRsp{Seq: m.Seq, PrevInfo: m.PrevInfo, Hashes: hs[:len(hs)-1], Count: uint64(len(hs) - 1)})
+			return
+		case e.fault("hashes-err", at):
+			rcv(&message.GetHashesRsp{Seq: m.Seq, PrevInfo: m.PrevInfo, Hashes: hs[:1], Count: 1, Err: message.RemotePeerFailError})
+			return
 		}
 		rcv(&message.GetHashesRsp{Seq: m.Seq, PrevInfo: m.PrevInfo, Hashes: hs, Count: uint64(len(hs))})
 	case *message.GetBlockChunks:
@@ -387,7 +406,12 @@ func (e *e2e) session(stopAt int) string {
 			e.tick()
 			continue
 		}
-		// nothing pending and a tick changed nothing: only a timer of the syncer can go on
+		// nothing pending and a tick changed nothing: only a timer of the syncer can go on. The
+		// hash fetcher's timer is virtual (rewrite vtime): the earliest armed one fires now
+		if vtime.FireNext() {
+			ticked = false
+			continue
+		}
 		select {
 		case o := <-e.out:
 			o.key = msgKey(o.m)
@@ -443,6 +467,7 @@ func (e *e2e) drain() {
 func runC(s scriptC) (sig, why string, classes []string) {
 	setScript(&s)
 	defer setScript(nil)
+	vtime.Reset()
 	oldTick := syncer.VerifC17SetSchedTick(time.Hour)
 	oldHT := syncer.VerifC17SetHashTimeout(time.Hour)
 	defer func() {
@@ -572,6 +597,15 @@ func scriptsC(tier string) []scriptC {
 		}
 	}
 	ss = append(ss, scriptC{Name: "fault", Mode: 1, Local: 5, Fork: 2, Remote: 9, Peers: 2, Tasks: 2, StopAt: -1, Fault: "hashbyno-err"})
+	// the hash fetcher's peer: silent, one hash short without an error indication (then silent), error
+	// answer - at the first and at a later request (requests of 3 hashes start after block 0, 3, 6, 9)
+	for _, kind := range []string{"hashes-silent", "hashes-short", "hashes-err"} {
+		for _, at := range []int{0, 3, 6} {
+			for order := 0; order < 2; order++ {
+				ss = append(ss, scriptC{Name: "fault", Mode: 0, Local: 5, Fork: 2, Remote: 12, Peers: 3, Tasks: 2, Order: order, StopAt: -1, Fault: fmt.Sprintf("%s@%d", kind, at), Extend: 2})
+			}
+		}
+	}
 	return ss
 }
 
